@@ -28,6 +28,7 @@ def opOfJson (j : Json) : Option Op :=
     | [.str "rejectIf", .str k, v] => some (.rejectIf k (toV v))
     | [.str "loop"] => some .loop
     | [.str "emitBad"] => some .emitBad
+    | [.str "emitBad", _] => some .emitBad
     | _ => none
   | _ => none
 
